@@ -89,3 +89,25 @@ Print Assumptions api_no_clobber.
 Example crash_premise_met :
   Forall (not_close nat nat) [WInit nat nat None; WMpo nat nat 0 ([1;1;1], [Some 1]); WCap nat nat 0 ([1], [Some 1])].
 Proof. repeat constructor. Qed.
+
+(* (5b) the entitlement does not depend on whether the handle is still open: an object that may not delete its file never deletes
+   it, whatever sequence of close() and remove() calls it is given; an entitled one deletes it at its first remove() *)
+Theorem not_entitled_never_deletes :
+  forall (ops : list fop) (o : fobj),
+    removeable (o_mode o) (o_given o) = false ->
+    o_there (fo_final false o ops) = o_there o /\ Forall (fun r => snd r = o_there o) (fo_run false o ops).
+Proof. exact PTFileSpec.not_entitled_never_deletes. Qed.
+Print Assumptions not_entitled_never_deletes.
+
+Theorem entitled_removes :
+  forall (o : fobj) (pre : list fop),
+    removeable (o_mode o) (o_given o) = true -> Forall (fun op => op = FClose) pre ->
+    o_there (fo_final false o (pre ++ [FRemove])) = false.
+Proof. exact PTFileSpec.entitled_removes. Qed.
+Print Assumptions entitled_removes.
+
+(* the entitlement looked at only while the handle is open: close(); remove() deletes a file opened for reading *)
+Theorem late_entitlement_check_refuted :
+  o_there (fo_final true {| o_mode := MRead; o_given := true; o_open := true; o_there := true |} [FClose; FRemove]) = false.
+Proof. reflexivity. Qed.
+Print Assumptions late_entitlement_check_refuted.
